@@ -98,7 +98,48 @@ class History:
         self.sig = sig
 
 
-def front_end_masks(q, groups, same=None):
+def front_end_source_facts():
+    """Pattern tie between coq/Front/ItpRequest.v and the working tree's src/api/Interpret.cc: returns
+    dict(variant='push-first'|'push-after', first_equal=bool, never_popped=bool) or raises ValueError when the code is no
+    longer recognised (the caller reports a broken tie)."""
+    import os
+    path = os.path.join(vlib.REPO, "src", "api", "Interpret.cc")
+    txt = open(path, errors="replace").read()
+    m = re.search(r"case\s+t_assert\s*:(.*?)case\s+t_definefun\s*:", txt, re.S)
+    if not m:
+        raise ValueError("Interpret.cc: the t_assert case is not found")
+    blk = m.group(1)
+    ip, ii = blk.find("assertions.push(tr)"), blk.find("insertFormula(tr)")
+    if ip < 0 or ii < 0 or blk.count("assertions.push(") != 1:
+        raise ValueError("Interpret.cc: t_assert no longer pushes on `assertions` exactly once / calls insertFormula(tr)")
+    g = re.search(r"int\s+Interpret::get_assertion_index\s*\(\s*PTRef\s+(\w+)\s*\)\s*\{(.*?)\n\}", txt, re.S)
+    first_equal = bool(g and re.search(r"for\s*\(\s*int\s+i\s*=\s*0\s*;\s*i\s*<\s*assertions\.size\(\)\s*;\s*\+\+i\s*\)\s*\{\s*if\s*\(\s*%s\s*==\s*assertions\[i\]\s*\)\s*\{\s*return\s+i\s*;" % g.group(1), g.group(2)))
+    if not first_equal:
+        raise ValueError("Interpret.cc: get_assertion_index is no longer the first-equal-term loop")
+    never_popped = not re.search(r"assertions\s*\.\s*(pop|shrink|clear|shrink_)\s*\(", txt)
+    if not never_popped:
+        raise ValueError("Interpret.cc: `assertions` is now shrunk somewhere (model: never popped)")
+    gi = re.search(r"void\s+Interpret::getInterpolants\s*\(.*?\n\}", txt, re.S)
+    if not gi or "is_top_level_assertion(group)" not in gi.group(0) or "logic->isAnd(group)" not in gi.group(0) \
+            or not re.search(r"ipartitions_t\s+p\s*=\s*0\s*;\s*(//[^\n]*\n\s*)*for\s*\(", gi.group(0)):
+        raise ValueError("Interpret.cc: getInterpolants no longer has the modelled shape (top-level test, isAnd, cumulative mask p)")
+    return dict(variant="push-first" if ip < ii else "push-after", first_equal=True, never_popped=True)
+
+
+_FRONT = None
+
+
+def front_facts():
+    global _FRONT
+    if _FRONT is None:
+        try:
+            _FRONT = front_end_source_facts()
+        except (ValueError, OSError) as e:
+            _FRONT = dict(error=str(e))
+    return _FRONT
+
+
+def front_end_masks(q, groups, same=None, fixd=False):
     """What Interpret::getInterpolants does (Interpret.cc:1326-1362, modelled in coq/Front/ItpRequest.v): a name stands for
     its term; the partition index of a term is the FIRST position of an equal term in the never-popped vector of
     everything that was pushed by an assert command (rejected ones included); masks are cumulative; an (and ...) group is
@@ -107,7 +148,7 @@ def front_end_masks(q, groups, same=None):
     caller passes logical equivalence, an over-approximation of term identity).
     Returns (predicted index sets, index sets the solver side gives to the named assertions, causes)."""
     same = same or (lambda a, b: a == b)
-    log = q["log"]
+    log = [e for e in q["log"] if e[2]] if fixd else q["log"]      # repaired front end: rejected terms are not recorded
     pos_of_uid = {u: i for i, (u, _, _) in enumerate(log)}
     true_idx = {}
     n = 0
@@ -349,7 +390,7 @@ class Judge:
         def same(b1, b2):
             return b1 == b2 or self.z3_unsat(logic, decls, [["xor", b1, b2]])
         try:
-            pred, want, causes = front_end_masks(q, groups, same)
+            pred, want, causes = front_end_masks(q, groups, same, fixd=front_facts().get("variant") == "push-after")
             if pred != want:
                 tags.append("front-mask-wrong(%s)" % "+".join(sorted(causes) or ["?"]))
         except (StopIteration, KeyError):
